@@ -30,16 +30,29 @@
     stops within `k+2` counted iterations and returns the exact, unique solution
     (`lyap_nilpotent_stops`, `lyap_nilpotent_exact`, `lyap_nilpotent_unique`); uniqueness for
     1×1 / diagonal `A` (`lyap_scalar_unique`, `lyap_diagonal_unique`).
+  * Round 3. TOTAL CORRECTNESS of the Lyapunov doubling loop on the checkable domain `‖A‖∞ < 1`
+    (max absolute row sum, executable `normInf`; nothing is assumed on `‖A‖₁`): iterates bounded by
+    `C = ‖B‖_max/(1−‖A‖∞²)` and increments by `C·(‖A‖∞^(2^k))²` (`lyap_geometric_bounds`); the loop
+    returns within `K + 2` counted iterations for the explicit `K` (`lyap_terminates`; existence of
+    `K` in Archimedean fields: `lyap_terminates_archimedean`); for PSD `B` the returned `X` is PSD
+    with residual ≤ tol entrywise (`lyap_total_correct`); for any `B` the residual is at most
+    `‖B‖_max·(‖A‖∞^(2^(its-1)))²` (`lyap_return_residual_bound`); Cauchy bound against all longer
+    partial sums (`lyap_partial_sums_cauchy`), distance to any exact solution
+    (`lyap_error_to_solution`) and uniqueness of the solution (`lyap_solution_unique`). Termination
+    also on the weighted domain `|A| w ≤ ρ w`, `w > 0`, `ρ < 1` (`lyap_terminates_weighted`).
   `np.linalg.solve` enters through the hypothesis `SolSpec` (returned solutions solve an
   invertible system); `np.linalg.cond` values are inputs of the γ rule.
   What is not proved (decided by the spec run of harness/c06.py only):
-  convergence for Schur-stable `A`, the stabilising property and positive
+  convergence for Schur-stable `A` outside the (weighted) row-sum domain, the stabilising property and positive
   semidefiniteness of the Riccati limit, and everything on the SciPy paths.
 -/
 import QEProofs.Lemmas.C06Lyap
 import QEProofs.Lemmas.C06Ricc
 import QEProofs.Lemmas.C06Gamma
 import QEProofs.Lemmas.C06Sda
+import QEProofs.Lemmas.C06Norm
+import QEProofs.Lemmas.C06NormW
+import Mathlib.Algebra.Order.Archimedean.Basic
 import QEProofs.Lemmas.C06LyapPsd
 
 namespace QE.C06
@@ -698,5 +711,238 @@ theorem lyap_diagonal_unique {K : Type} [Field K] {n : ℕ} (d : Fin n → K) (B
     ext i j
     rw [entry]
     exact (lyap_entry_unique (d i) (d j) (B i j) (X i j) (hd i j)).mpr (h i j)
+
+section lyapunov_total
+variable {K : Type} [Field K] [LinearOrder K] [IsStrictOrderedRing K]
+
+/-- the constant `C = ‖B‖_max / (1 − ‖A‖∞²)` of the bounds below, from the executable norms -/
+def lyapC (A B : M K) : K := maxAbs gabs B / (1 - normInf A ^ 2)
+
+theorem lyap_norm_hyps {n : ℕ} (A B : M K) (hA : Dim A n n) (hB : Dim B n n) :
+    RowBound (toMat n n A) (normInf A) ∧ 0 ≤ normInf A ∧
+    EntryBound (toMat n n B) (maxAbs gabs B) ∧ 0 ≤ maxAbs gabs B :=
+  ⟨fun p => rowsum_le_normInf A hA p, normInf_nonneg A,
+   fun p q => abs_get_le_maxAbs B p q (by rw [hB.nr]; exact p.2) (by rw [hB.nc]; exact q.2),
+   by unfold maxAbs; exact foldl2_max_ge_init _ _ _ 0⟩
+
+/-- **lyap_geometric_bounds.** Hypothesis: only `‖A‖∞ < 1` (max absolute row sum, the executable
+    `normInf A`; no condition on `‖A‖₁`, because `α γ α'` uses row sums of `α` on both sides).
+    Then for every `k`: the iterate is uniformly bounded, `‖γ_k‖_max ≤ C = ‖B‖_max/(1 − ‖A‖∞²)`, and the
+    tested increment decays doubly exponentially, `‖γ_(k+1) − γ_k‖_max ≤ C · (‖A‖∞^(2^k))²`. -/
+theorem lyap_geometric_bounds {n : ℕ} (A B : M K) (hA : Dim A n n) (hB : Dim B n n)
+    (hρ : normInf A < 1) (k : ℕ) :
+    (∀ p q : Fin n, |toMat n n (lyapIter A B k).2 p q| ≤ lyapC A B) ∧
+    (∀ p q : Fin n, |toMat n n (msub (lyapIter A B (k + 1)).2 (lyapIter A B k).2) p q|
+        ≤ lyapC A B * (normInf A ^ (2 ^ k)) ^ 2) := by
+  obtain ⟨ha, hρ0, hb, hβ⟩ := lyap_norm_hyps A B hA hB
+  have hsum : toMat n n (lyapIter A B k).2 = dsum (toMat n n A) (toMat n n B) (toMat n n A)ᵀ (2 ^ k) :=
+    (lyap_doubling_sum A B hA hB k).2
+  constructor
+  · rw [hsum]; exact dsum_entryBound _ _ _ _ ha hρ0 hρ hb hβ _
+  · rw [lyap_increment A B hA hB k, hsum]
+    exact increment_entryBound _ _ _ _ ha hρ0 hρ hb hβ _ _
+
+/-- **lyap_terminates.** TERMINATION on the checkable domain `‖A‖∞ < 1`: for any `K` with
+    `C · (‖A‖∞^(2^K))² ≤ tol` (explicit; the least such `K` is found by repeated squaring) and
+    `max_it ≥ K + 2`, the loop returns normally with `n_its ≤ K + 2`, for every `B`. -/
+theorem lyap_terminates {n : ℕ} (tol : K) (maxIt : ℕ) (A B : M K) (hA : Dim A n n) (hB : Dim B n n)
+    (hρ : normInf A < 1) (k : ℕ) (hK : lyapC A B * (normInf A ^ (2 ^ k)) ^ 2 ≤ tol) (hmax : k + 2 ≤ maxIt) :
+    ∃ X its ds, lyapDoubling tol maxIt A B = .ok X its ds ∧ its ≤ k + 2 := by
+  obtain ⟨_, hρ0, _, hβ⟩ := lyap_norm_hyps A B hA hB
+  have hC : 0 ≤ lyapC A B := div_nonneg hβ (by nlinarith)
+  have htol : 0 ≤ tol := le_trans (mul_nonneg hC (sq_nonneg _)) hK
+  have hsmall : ¬ tol < lyapDiff (lyapIter A B k) (lyapIter A B (k + 1)) := by
+    apply not_lt.mpr
+    unfold lyapDiff
+    obtain ⟨_, hd⟩ := lyapIter_dim hA hB (k + 1)
+    exact maxAbs_le _ (dim_msub hd) tol htol
+      fun p q => le_trans ((lyap_geometric_bounds A B hA hB hρ k).2 p q) hK
+  unfold lyapDoubling
+  exact lyapLoop_stops_of_small tol maxIt A B k hmax hsmall k 0 (maxIt + 1) [] (by omega) (by omega)
+
+/-- **lyap_total_correct.** TOTAL CORRECTNESS of the model of `solve_discrete_lyapunov` (doubling) in
+    exact arithmetic on the domain `‖A‖∞ < 1`, `B` symmetric PSD: for `K` with
+    `‖B‖_max/(1−‖A‖∞²) · (‖A‖∞^(2^K))² ≤ tol` and `max_it ≥ K + 2` the call returns normally, after at
+    most `K + 2` counted iterations, a symmetric PSD `X` with `|(A X A' − X + B)_pq| ≤ tol` for all
+    `p, q` (for the code: `tol = 1e-15`, `max_it = 50`). -/
+theorem lyap_total_correct {n : ℕ} (tol : K) (maxIt : ℕ) (A B : M K) (hA : Dim A n n) (hB : Dim B n n)
+    (hρ : normInf A < 1) (hpsd : PSD (toMat n n B)) (k : ℕ)
+    (hK : lyapC A B * (normInf A ^ (2 ^ k)) ^ 2 ≤ tol) (hmax : k + 2 ≤ maxIt) :
+    ∃ X its ds, lyapDoubling tol maxIt A B = .ok X its ds ∧ its ≤ k + 2 ∧
+      PSD (toMat n n X) ∧
+      ∀ p q : Fin n, |(toMat n n A * toMat n n X * (toMat n n A)ᵀ - toMat n n X + toMat n n B) p q| ≤ tol := by
+  obtain ⟨X, its, ds, h, hits⟩ := lyap_terminates tol maxIt A B hA hB hρ k hK hmax
+  refine ⟨X, its, ds, h, hits, ?_, ?_⟩
+  · obtain ⟨_, _, hX, _, _⟩ := lyap_return_spec tol maxIt A B X its ds hA hB h
+    rw [hX]
+    exact dsum_psd _ hpsd _
+  · exact lyap_psd_return_le_tol tol maxIt A B X its ds hA hB hpsd
+      (fun p => le_trans (rowsum_le_normInf A hA p) (le_of_lt hρ)) h
+
+/-- **lyap_partial_sums_cauchy.** (limit statement without limits) For `‖A‖∞ < 1`, every partial sum
+    `S_N = Σ_{j<N} A^j B (A')^j` with `N ≥ 2^k` is within `C · (‖A‖∞^(2^k))²` of the iterate `γ_k`
+    entrywise; for PSD `B` moreover `S_N − γ_k ⪰ 0` (partial sums increase in the Loewner order and are
+    bounded by `C` entrywise, `lyap_geometric_bounds`). -/
+theorem lyap_partial_sums_cauchy {n : ℕ} (A B : M K) (hA : Dim A n n) (hB : Dim B n n)
+    (hρ : normInf A < 1) (k p : ℕ) :
+    (∀ i j : Fin n,
+      |((∑ l ∈ range (2 ^ k + p), toMat n n A ^ l * toMat n n B * (toMat n n A)ᵀ ^ l)
+          - toMat n n (lyapIter A B k).2) i j| ≤ lyapC A B * (normInf A ^ (2 ^ k)) ^ 2) ∧
+    (PSD (toMat n n B) →
+      PSD ((∑ l ∈ range (2 ^ k + p), toMat n n A ^ l * toMat n n B * (toMat n n A)ᵀ ^ l)
+          - toMat n n (lyapIter A B k).2)) := by
+  obtain ⟨ha, hρ0, hb, hβ⟩ := lyap_norm_hyps A B hA hB
+  have hsum : toMat n n (lyapIter A B k).2 = dsum (toMat n n A) (toMat n n B) (toMat n n A)ᵀ (2 ^ k) :=
+    (lyap_doubling_sum A B hA hB k).2
+  have hsplit : (∑ l ∈ range (2 ^ k + p), toMat n n A ^ l * toMat n n B * (toMat n n A)ᵀ ^ l)
+      - toMat n n (lyapIter A B k).2
+      = toMat n n A ^ (2 ^ k) * dsum (toMat n n A) (toMat n n B) (toMat n n A)ᵀ p * (toMat n n A)ᵀ ^ (2 ^ k) := by
+    rw [hsum]
+    have := dsum_add (toMat n n A) (toMat n n B) (toMat n n A)ᵀ (2 ^ k) p
+    unfold dsum at this ⊢
+    rw [this, add_sub_cancel_left]
+  rw [hsplit]
+  refine ⟨increment_entryBound _ _ _ _ ha hρ0 hρ hb hβ _ _, fun hpsd => ?_⟩
+  rw [← transpose_pow]
+  exact psd_conj _ (dsum_psd _ hpsd _)
+
+/-- non-vacuity: `A = [[1/2, 1/4], [0, 1/3]]` has `‖A‖∞ = 3/4 < 1`; with `B = I`, `tol = 1e-15`:
+    `C = 16/7` and `K = 6` satisfies the bound (`(3/4)^128·16/7 ≈ 2.3e-16`), so `n_its ≤ 8` (it is 7) -/
+example : normInf (M.ofRows [[(1 : ℚ) / 2, 1 / 4], [0, 1 / 3]]) = 3 / 4 := by decide +kernel
+example : lyapC (M.ofRows [[(1 : ℚ) / 2, 1 / 4], [0, 1 / 3]]) (ident 2)
+    * (normInf (M.ofRows [[(1 : ℚ) / 2, 1 / 4], [0, 1 / 3]]) ^ (2 ^ 6)) ^ 2 ≤ 1 / 1000000000000000 := by
+  decide +kernel
+
+/-- **lyap_terminates_archimedean.** In an Archimedean ordered field (ℚ, ℝ) such a `K` always exists:
+    for `‖A‖∞ < 1` and `tol > 0` there is `K` such that every call with `max_it ≥ K + 2` returns normally
+    with `n_its ≤ K + 2`. -/
+theorem lyap_terminates_archimedean [Archimedean K] {n : ℕ} (tol : K) (A B : M K) (hA : Dim A n n)
+    (hB : Dim B n n) (hρ : normInf A < 1) (htol : 0 < tol) :
+    ∃ k, lyapC A B * (normInf A ^ (2 ^ k)) ^ 2 ≤ tol ∧
+      ∀ maxIt, k + 2 ≤ maxIt → ∃ X its ds, lyapDoubling tol maxIt A B = .ok X its ds ∧ its ≤ k + 2 := by
+  obtain ⟨_, hρ0, _, hβ⟩ := lyap_norm_hyps A B hA hB
+  have hC : 0 ≤ lyapC A B := div_nonneg hβ (by nlinarith)
+  have h2 : normInf A ^ 2 < 1 := by nlinarith
+  obtain ⟨k, hk⟩ := exists_pow_lt_of_lt_one (div_pos htol (by linarith : 0 < lyapC A B + 1)) h2
+  have hle : (normInf A ^ (2 ^ k)) ^ 2 ≤ (normInf A ^ 2) ^ k := by
+    rw [← pow_mul, mul_comm, pow_mul]
+    exact pow_le_pow_of_le_one (sq_nonneg _) (le_of_lt h2) (le_of_lt Nat.lt_two_pow_self)
+  have hK : lyapC A B * (normInf A ^ (2 ^ k)) ^ 2 ≤ tol := by
+    have h3 : (normInf A ^ (2 ^ k)) ^ 2 < tol / (lyapC A B + 1) := lt_of_le_of_lt hle hk
+    have h4 : (lyapC A B + 1) * (normInf A ^ (2 ^ k)) ^ 2 < tol := by
+      rw [lt_div_iff₀ (by linarith : 0 < lyapC A B + 1)] at h3
+      linarith
+    nlinarith [sq_nonneg (normInf A ^ (2 ^ k))]
+  exact ⟨k, hK, fun maxIt hmax => lyap_terminates tol maxIt A B hA hB hρ k hK hmax⟩
+
+/-- **lyap_return_residual_bound.** For arbitrary (possibly indefinite) `B` and any `A`, the residual
+    of any normally returned `X` is at most `‖B‖_max · (‖A‖∞^(2^(its-1)))²` entrywise (an early exit by
+    cancellation is possible for indefinite `B`, so `tol` does not bound it; `its ≥ 2`). -/
+theorem lyap_return_residual_bound {n : ℕ} (tol : K) (maxIt : ℕ) (A B X : M K) (its : ℕ) (ds : List K)
+    (hA : Dim A n n) (hB : Dim B n n)
+    (h : lyapDoubling tol maxIt A B = .ok X its ds) :
+    ∀ p q : Fin n, |(toMat n n A * toMat n n X * (toMat n n A)ᵀ - toMat n n X + toMat n n B) p q|
+      ≤ maxAbs gabs B * (normInf A ^ (2 ^ (its - 1))) ^ 2 := by
+  obtain ⟨ha, hρ0, hb, hβ⟩ := lyap_norm_hyps A B hA hB
+  obtain ⟨_, _, _, hres, _⟩ := lyap_return_spec tol maxIt A B X its ds hA hB h
+  rw [hres]
+  have := tterm_entryBound (toMat n n A) (toMat n n B) _ _ ha hρ0 hb hβ (2 ^ (its - 1))
+  intro p q
+  refine le_trans (this p q) (le_of_eq ?_)
+  rw [← pow_mul, mul_comm 2, pow_mul]
+
+/-- **lyap_error_to_solution.** Distance to the true solution, without limits: if `Y` is any exact
+    solution of `A Y A' − Y + B = 0`, then `Y − γ_k = A^(2^k) Y (A')^(2^k)` for every `k`, hence
+    `|(Y − γ_k)_pq| ≤ ‖Y‖_max · (‖A‖∞^(2^k))²` (any `g` bounding the entries of `Y`). -/
+theorem lyap_error_to_solution {n : ℕ} (A B : M K) (hA : Dim A n n) (hB : Dim B n n)
+    (Y : Matrix (Fin n) (Fin n) K) (hY : toMat n n A * Y * (toMat n n A)ᵀ - Y + toMat n n B = 0)
+    (g : K) (hg : EntryBound Y g) (hg0 : 0 ≤ g) (k : ℕ) :
+    Y - toMat n n (lyapIter A B k).2 = toMat n n A ^ (2 ^ k) * Y * (toMat n n A)ᵀ ^ (2 ^ k) ∧
+    ∀ p q : Fin n, |(Y - toMat n n (lyapIter A B k).2) p q| ≤ g * (normInf A ^ (2 ^ k)) ^ 2 := by
+  obtain ⟨ha, hρ0, _, _⟩ := lyap_norm_hyps A B hA hB
+  have hsum : toMat n n (lyapIter A B k).2 = dsum (toMat n n A) (toMat n n B) (toMat n n A)ᵀ (2 ^ k) :=
+    (lyap_doubling_sum A B hA hB k).2
+  have e : Y - toMat n n (lyapIter A B k).2 = toMat n n A ^ (2 ^ k) * Y * (toMat n n A)ᵀ ^ (2 ^ k) := by
+    rw [hsum]
+    have := solution_eq_dsum_add_tail (toMat n n A) (toMat n n B) (toMat n n A)ᵀ Y hY (2 ^ k)
+    exact sub_eq_of_eq_add' this
+  refine ⟨e, fun p q => ?_⟩
+  rw [e, ← transpose_pow]
+  have := entryBound_conj (rowBound_pow ha hρ0 (2 ^ k)) (pow_nonneg hρ0 _) hg hg0
+  exact le_trans (this p q) (le_of_eq (by ring))
+
+/-- **lyap_solution_unique.** For `‖A‖∞ < 1` over an Archimedean ordered field the Lyapunov equation
+    has at most one solution (so `lyap_error_to_solution` measures the distance to *the* solution). -/
+theorem lyap_solution_unique [Archimedean K] {n : ℕ} (A B : M K) (hA : Dim A n n) (hB : Dim B n n)
+    (hρ : normInf A < 1) (Y Z : Matrix (Fin n) (Fin n) K)
+    (hY : toMat n n A * Y * (toMat n n A)ᵀ - Y + toMat n n B = 0)
+    (hZ : toMat n n A * Z * (toMat n n A)ᵀ - Z + toMat n n B = 0) : Y = Z := by
+  obtain ⟨ha, hρ0, _, _⟩ := lyap_norm_hyps A B hA hB
+  have h2 : normInf A ^ 2 < 1 := by nlinarith
+  -- D = Y − Z solves the homogeneous equation, so D = A^m D (A')^m for all m
+  have hD : toMat n n A * (Y - Z) * (toMat n n A)ᵀ - (Y - Z) + 0 = 0 := by
+    have : toMat n n A * (Y - Z) * (toMat n n A)ᵀ - (Y - Z) + 0
+        = (toMat n n A * Y * (toMat n n A)ᵀ - Y + toMat n n B)
+          - (toMat n n A * Z * (toMat n n A)ᵀ - Z + toMat n n B) := by noncomm_ring
+    rw [this, hY, hZ, sub_zero]
+  -- a bound g of the entries of D
+  obtain ⟨g, hg0, hg⟩ : ∃ g : K, 0 ≤ g ∧ EntryBound (Y - Z) g :=
+    ⟨∑ p, ∑ q, |(Y - Z) p q|, Finset.sum_nonneg fun p _ => Finset.sum_nonneg fun q _ => abs_nonneg _,
+     fun p q => le_trans (Finset.single_le_sum (f := fun q => |(Y - Z) p q|) (fun q _ => abs_nonneg _)
+        (Finset.mem_univ q))
+       (Finset.single_le_sum (f := fun p => ∑ q, |(Y - Z) p q|)
+        (fun p _ => Finset.sum_nonneg fun q _ => abs_nonneg _) (Finset.mem_univ p))⟩
+  have hsmall : ∀ (m : ℕ) (p q : Fin n), |(Y - Z) p q| ≤ g * (normInf A ^ 2) ^ m := by
+    intro m p q
+    have e := solution_eq_dsum_add_tail (toMat n n A) 0 (toMat n n A)ᵀ (Y - Z) hD m
+    have hz : dsum (toMat n n A) (0 : Matrix (Fin n) (Fin n) K) (toMat n n A)ᵀ m = 0 := by
+      unfold dsum; simp
+    rw [hz, zero_add] at e
+    have hb := entryBound_conj (rowBound_pow ha hρ0 m) (pow_nonneg hρ0 _) hg hg0
+    rw [transpose_pow, ← e] at hb
+    refine le_trans (hb p q) (le_of_eq ?_)
+    rw [← pow_mul, mul_comm 2 m, pow_mul]; ring
+  ext p q
+  by_contra hne
+  have hpos : 0 < |(Y - Z) p q| := abs_pos.mpr (by rw [Matrix.sub_apply]; exact sub_ne_zero.mpr hne)
+  obtain ⟨m, hm⟩ := exists_pow_lt_of_lt_one (div_pos hpos (by linarith : 0 < g + 1)) h2
+  have h1 := hsmall m p q
+  rw [lt_div_iff₀ (by linarith : 0 < g + 1)] at hm
+  nlinarith [pow_nonneg (sq_nonneg (normInf A)) m]
+
+/-- **lyap_terminates_weighted.** Termination on the larger checkable domain "`|A| w ≤ ρ w` for some
+    positive vector `w` and `ρ < 1`" (i.e. `‖D⁻¹AD‖∞ ≤ ρ`, `D = diag w`; `w = 1` is `‖A‖∞ ≤ ρ`; such a
+    `w` exists iff the spectral radius of `|A|` is below 1). With `|B_pq| ≤ β w_p w_q`: the increments
+    satisfy `|(γ_(k+1) − γ_k)_pq| ≤ β/(1−ρ²) · (ρ^(2^k))² · w_p w_q`, and for any `K` making the right-hand
+    side `≤ tol` for all `p, q`, the loop returns normally with `n_its ≤ K + 2` when `max_it ≥ K + 2`. -/
+theorem lyap_terminates_weighted {n : ℕ} (tol : K) (maxIt : ℕ) (A B : M K) (hA : Dim A n n) (hB : Dim B n n)
+    (w : Fin n → K) (hw : ∀ p, 0 ≤ w p) (ρ β : K) (hρ0 : 0 ≤ ρ) (hρ1 : ρ < 1) (hβ : 0 ≤ β)
+    (hAw : RowBoundW w (toMat n n A) ρ) (hBw : EntryBoundW w (toMat n n B) β) (htol : 0 ≤ tol)
+    (k : ℕ) (hK : ∀ p q, β / (1 - ρ ^ 2) * (ρ ^ (2 ^ k)) ^ 2 * (w p * w q) ≤ tol) (hmax : k + 2 ≤ maxIt) :
+    (∀ j p q, |toMat n n (msub (lyapIter A B (j + 1)).2 (lyapIter A B j).2) p q|
+        ≤ β / (1 - ρ ^ 2) * (ρ ^ (2 ^ j)) ^ 2 * (w p * w q)) ∧
+    ∃ X its ds, lyapDoubling tol maxIt A B = .ok X its ds ∧ its ≤ k + 2 := by
+  have hinc : ∀ j p q, |toMat n n (msub (lyapIter A B (j + 1)).2 (lyapIter A B j).2) p q|
+      ≤ β / (1 - ρ ^ 2) * (ρ ^ (2 ^ j)) ^ 2 * (w p * w q) := by
+    intro j
+    rw [lyap_increment A B hA hB j, (lyap_doubling_sum A B hA hB j).2]
+    exact increment_entryBoundW w hw _ _ ρ β hAw hρ0 hρ1 hBw hβ _ _
+  refine ⟨hinc, ?_⟩
+  have hsmall : ¬ tol < lyapDiff (lyapIter A B k) (lyapIter A B (k + 1)) := by
+    apply not_lt.mpr
+    unfold lyapDiff
+    obtain ⟨_, hd⟩ := lyapIter_dim hA hB (k + 1)
+    exact maxAbs_le _ (dim_msub hd) tol htol fun p q => le_trans (hinc k p q) (hK p q)
+  unfold lyapDoubling
+  exact lyapLoop_stops_of_small tol maxIt A B k hmax hsmall k 0 (maxIt + 1) [] (by omega) (by omega)
+
+/-- non-vacuity of the weighted domain: `A = [[1/2, 2], [0, 1/2]]` has `‖A‖∞ = 5/2`, but with
+    `w = (8, 1)` it satisfies `|A| w ≤ (3/4) w` -/
+example : RowBoundW (fun p : Fin 2 => if p = 0 then (8 : ℚ) else 1)
+    (toMat 2 2 (M.ofRows [[(1 : ℚ) / 2, 2], [0, 1 / 2]])) (3 / 4) := by
+  unfold RowBoundW; decide +kernel
+example : ¬ normInf (M.ofRows [[(1 : ℚ) / 2, 2], [0, 1 / 2]]) < 1 := by decide +kernel
+
+end lyapunov_total
 
 end QE.C06
